@@ -103,6 +103,11 @@ mod verif_probe_distances_c10 {
                 let mut got: Vec<R> = ok.all().into_iter().map(|r| key(r.from, r.to, r.attribute_metric, r.feature_distance)).collect(); got.sort();
                 let errs = err.all();
                 let (want, want_errs) = expected(&cands, &stored, class, only_baked, &[], best_only);
+                // the same query consumed through the response ITERATORS (what the batch trackers do) yields the same results
+                let (ok_i, err_i) = s.foreign_track_distances(cands.iter().map(|c| mk(&s, c)).collect(), class as u64, only_baked);
+                let mut got_i: Vec<R> = ok_i.into_iter().map(|r| key(r.from, r.to, r.attribute_metric, r.feature_distance)).collect(); got_i.sort();
+                let errs_i = err_i.into_iter().count();
+                if got_i != want || errs_i != want_errs { failures.push(format!("{}: distances.response_iterators_yield_every_result_and_error: into_iter() gave {} results / {} errors, expected {} / {}", ctx, got_i.len(), errs_i, want.len(), want_errs)); }
                 cases += 1; if want.len() > 3 { nontrivial += 1; }
                 if got.iter().any(|r| r.0 == r.1) { failures.push(format!("{}: distances.never_pairs_a_track_with_itself", ctx)); }
                 if got != want { failures.push(format!("{}: distances.exactly_one_result_per_valued_pair_over_compatible_{}tracks: got {} results, expected {} (first difference: {:?})", ctx, if only_baked { "ready_" } else { "" }, got.len(), want.len(),
